@@ -250,6 +250,7 @@ func (pg *Page) split(sym string, values map[string]string) (map[string]string, 
 // pages are separated by LF (0x0a).
 func (pg *Page) joinSink(sinkValues []string, remaining uint32, menuSizes [4]uint32) (string, uint16, error) {
 	l := 0
+	n := 0 // rows on the page being assembled
 	var count uint16
 	tb := strings.Builder{}
 	rb := strings.Builder{}
@@ -266,7 +267,7 @@ func (pg *Page) joinSink(sinkValues []string, remaining uint32, menuSizes [4]uin
 		l += len(v)
 		logg.Tracef("processing sink", "idx", i, "value", v, "netremaining", netRemaining, "l", l)
 		if uint32(l) > netRemaining-1 {
-			if tb.Len() == 0 {
+			if n == 0 {
 				return "", 0, fmt.Errorf("capacity insufficient for sink field %v", i)
 			}
 			rb.WriteString(tb.String())
@@ -274,6 +275,7 @@ func (pg *Page) joinSink(sinkValues []string, remaining uint32, menuSizes [4]uin
 			c := uint32(rb.Len())
 			pg.sizer.AddCursor(c)
 			tb.Reset()
+			n = 0
 			l = len(v)
 			if count == 0 {
 				if netRemaining < menuSizes[2]+2 {
@@ -283,11 +285,12 @@ func (pg *Page) joinSink(sinkValues []string, remaining uint32, menuSizes [4]uin
 			}
 			count += 1
 		}
-		if tb.Len() > 0 {
+		if n > 0 {
 			tb.WriteByte(byte(0x00))
 			l += 1
 		}
 		tb.WriteString(v)
+		n += 1
 	}
 
 	if tb.Len() > 0 {
